@@ -149,6 +149,14 @@ var c10Named = []struct {
 	{"SELECT id, ONCE.fx(1, 1) AS o, ASYNC.fx(2, a) AS y, SPINASYNC.fx(3, a) FROM grid", false},
 	{"SELECT s, COUNT(*) AS c FROM grid GROUP BY s HAVING COUNT(*) > 0 ORDER BY s LIMIT 1", false},
 	{"SELECT * FROM grid x JOIN u y ON x.id = y.id", false},
+	// join sides that are no tables of objects (rows that are arrays, unaliased): every worker of a PARALLEL join fails
+	{"SELECT * FROM grid PARALLEL LEFT JOIN u ON grid.id = u.id", false},
+	{"SELECT * FROM grid PARALLEL JOIN u ON grid.id = u.id", false},
+	{"SELECT * FROM u PARALLEL RIGHT JOIN grid ON grid.id = u.id", false},
+	{"SELECT * FROM grid PARALLEL LEFT HASH_JOIN u ON grid.id = u.id", false},
+	{"SELECT * FROM grid PARALLEL LEFT JOIN grid g2 ON grid.id < g2.id", false},
+	{"SELECT * FROM wide PARALLEL LEFT JOIN u ON wide.id = u.id", false},
+	{"SELECT * FROM wide PARALLEL JOIN wide w2 ON wide.id = w2.id", false},
 	{"SELECT id, (SELECT v FROM n WHERE v > 0) AS sub FROM grid WHERE EXISTS (SELECT v FROM n)", false},
 	// run-once strategies nested in one another (each holds its own memo and lock)
 	{"SELECT id, GLOBAL.fx((SELECT 1 AS i FROM dual), (SELECT ONCE.fx(2, 5) AS x FROM dual)) AS g FROM t", false},
@@ -611,6 +619,11 @@ func corpusC10() []*Bundle {
 			[]any{},
 		},
 	}
+	wideRows := []any{}
+	for i := 0; i < 24; i++ {
+		wideRows = append(wideRows, []any{map[string]any{"id": float64(i + 1), "a": float64(i)}})
+	}
+	doc["wide"] = wideRows
 	var out []*Bundle
 	for _, nc := range c10Named {
 		for _, wrapped := range []bool{false, true} {
